@@ -23,39 +23,49 @@ PROPS = {
                       "history / starting indices / counter / local-data item as coded; an unknown scaling value raises ValueError. _compute_residuals (nested "
                       "loop invariants over the converter -> names-to-slices map). MDASequential._execute (no warm start): the MDAs run in order, each on the data "
                       "RETURNED by the previous one, the local data end as the data returned by the last executed MDA, the chain stops after the first MDA whose "
-                      "normed residual is < (strict) the sequential MDA's tolerance.",
+                      "normed residual is < (strict) the sequential MDA's tolerance. Scaling setters (after fix 05f502e): BaseMDA.scaling sets the method and RESETS "
+                      "the scaling data, the MDAChain / MDASequential overrides propagate the method to every inner MDA through its setter (which resets its data): the "
+                      "representation invariant 'scaling data are None or a reference of the CURRENT method' is PROVED to hold after any setter call and is a "
+                      "precondition / loop invariant / postcondition of _stop_criterion_is_reached and of the three loops. MDANewtonRaphson.__compute_newton_step "
+                      "(delegation): all disciplines linearized at the iteration's start data (execute as configured), then exactly the step of "
+                      "JacobianAssembly.compute_newton_step (C07) for those data, the resolved variable names, the configured solver / matrix type / settings, "
+                      "the current residual vector and the resolved residual names. MDAQuasiNewton.__compute_residuals (the function handed to scipy root): "
+                      "disciplines executed ON Y = local data updated with unpack(x), local data restored and updated with their outputs, residuals = "
+                      "value(new data) - value(Y), result = JacobianAssembly.residuals(Y, resolved variable names). All norm / loop contracts are stated for "
+                      "COUPLED systems (at least one resolved residual, non-empty residual map): under this precondition no ZeroDivisionError.",
         "level_note": "Trusted: pyvc, z3, pyvc/plug_c06.py. Abstractions: vectors are opaque arrays (numpy results = deterministic uninterpreted functions of the operands), "
                       "norm an uninterpreted non-negative real, n ** 0.5 an uninterpreted sqrt (>= 0, zero iff n == 0), numpy-scalar division by zero an unspecified "
                       "real (no exception), float division by zero ZeroDivisionError. ASSUMED (trusted contracts, listed in the evidence): the lazily computed "
                       "names-to-slices maps (__compute_names_to_slices; names partitioned by converter), pack / unpack between vectors and data "
                       "(get_current_resolved_*_vector, _update_local_data_from_array), IO.update_output_data (stores the items whose key is an output name), the "
                       "sequence transformer (RelaxationAcceleration: free history constructor with observers; identity when no acceleration and relaxation "
-                      "factor 1), _prepare_warm_start (changes the local data only), MDANewtonRaphson.__compute_newton_step (= the step of "
-                      "JacobianAssembly.compute_newton_step verified in C07; the delegation itself is not verified), opaque disciplines (execute records its "
+                      "factor 1), _prepare_warm_start (changes the local data only), JacobianAssembly.compute_newton_step / residuals as uninterpreted functions of "
+                      "the assembly, the disciplines' linearization / execution state and the arguments (their contracts are verified / assumed in C07), the "
+                      "packed vector of a non-empty map has at least one component, inner MDAs of composed MDAs obey the verified base setter contract, opaque disciplines (execute records its "
                       "input data, get_output_data a deterministic function of them, execute does not modify its argument), opaque MDAs of a sequence, serial "
                       "mode (n_processes == 1). The loops use the abstract summary of _compute_normalized_residual_norm (normed residual = f(scaling, scaling "
                       "data after the call, residual vector)); the formulas are verified separately per scaling member. Native replays (observations, outside "
                       "the claimed region): an MDA WITHOUT resolved variables behaves differently per scaling (default: converged at once; N_COUPLING_VARIABLES: "
-                      "nan, runs to max_mda_iter; SCALED_INITIAL_RESIDUAL_COMPONENT: ZeroDivisionError - stated by the variant's raises clause; "
-                      "INITIAL_RESIDUAL_COMPONENT: ValueError of max() on an empty array, not modelled); changing `scaling` after a first execution keeps the "
-                      "reference of the previous method (_scaling_data is never reset: ValueError or a silently wrong scaling) - excluded here by the typed "
-                      "representation invariant '_scaling_data is None or a reference of the current method'.",
+                      "nan, runs to max_mda_iter; SCALED_INITIAL_RESIDUAL_COMPONENT: ZeroDivisionError; INITIAL_RESIDUAL_COMPONENT: ValueError of max() on an empty "
+                      "array) - this degenerate case is LEFT OUT of the claim (precondition 'coupled system'), not specified as behaviour. Repaired defect "
+                      "(05f502e, known_findings.json): the scaling setter kept the reference of the previous method.",
         "design_ref": "DESIGN.md §6 (was: not applicable; now partial correctness)",
         "modules": ["contracts.c06_mda"],
         "assumptions": ["disciplines are deterministic and do not modify the mapping they are executed on; get_output_data() is a function of the discipline and of the data it was last executed on",
                         "serial mode (settings.n_processes == 1): _execute_disciplines / _linearize_disciplines are the sequential methods",
                         "data converters: convert_data_to_array([name], data) depends on (converter, name, data[name]) only; the resolved names are keys of the data (KeyError not modelled)",
                         "the names of the residual names-to-slices map are partitioned by converter (representation invariant, established by __compute_names_to_slices - assumed)",
-                        "_scaling_data is None or a reference of the type of the current scaling method (not changed between executions); a stored scalar reference of INITIAL_RESIDUAL_NORM is not zero (verified to be preserved)",
+                        "_scaling_data is None or a reference of the current scaling method: established by __init__ (None; not verified), PROVED preserved by the three scaling setters; in the per-scaling variants of the norm it is the typing of _scaling_data; a stored scalar reference of INITIAL_RESIDUAL_NORM is not zero (verified to be preserved)",
+                        "coupled system: at least one resolved residual name and a non-empty residual names-to-slices map; the packed vector of a non-empty map has at least one component",
                         "_current_iter == 0 when _execute starts (set by BaseMDA.execute)",
                         "abstract sequence transformer, pack / unpack, warm start, Newton step, IO.update_output_data as described in level_note",
                         "float64 arithmetic read as real arithmetic; nan / inf not modelled"],
         "not_covered": ["CONVERGENCE: that any loop ever meets the tolerance criterion; agreement of the algorithms with each other / with the exact solution; independence of the solution from acceleration, relaxation, warm start, scaling, discipline order",
                         "that re-executing a discipline on the returned data reproduces the returned outputs to within the tolerance (needs contractivity; the code guarantees the one-sweep-back statement above)",
                         "ResidualScaling.INITIAL_SUBRESIDUAL_NORM (three loops over lists of (slice, norm) pairs)",
-                        "MDAQuasiNewton (nested functions, scipy.optimize.root), MDAGSNewton.__init__, MDAChain (C08/C09), parallel execution of the disciplines (C13)",
+                        "MDAs WITHOUT resolved variables (degenerate: nan / ZeroDivisionError / ValueError depending on the scaling - native replay in level_note)",
+                        "MDAQuasiNewton._execute and its nested Jacobian / callback functions (scipy.optimize.root calls back an unknown number of times), MDAGSNewton.__init__, MDAChain (C08/C09), parallel execution of the disciplines (C13)",
                         "the sequence transformers themselves (relaxation / acceleration formulas), the vector <-> data conversions, __compute_names_to_slices, _set_resolved_variables, _check_coupling_types, _prepare_warm_start",
-                        "the delegation inside MDANewtonRaphson.__compute_newton_step (arguments handed to JacobianAssembly.compute_newton_step)",
                         "residual_history of MDASequential (concatenation of the sub-histories), warm start of MDASequential"],
     },
     "C18": {
@@ -825,10 +835,11 @@ PROPS["C11"] = {
                   "erased / empty file), is preserved by every Database.store (any number of stores between two notifications) and restored by the export (to_file@c12 also proves, "
                   "through @c12 variants of __add_hdf_output_dataset / __create_hdf_input_output / __append_hdf_output, that the record of every exported point only lists names "
                   "of that point - its own per-point history precondition - so the induction uses proved postconditions only). Database.from_hdf: a NEW database "
-                  "(constructor model) holding exactly the file's points in file order. Two clauses FAIL on the pinned tree and are known findings, each "
+                  "(constructor model) holding exactly the file's points in file order. BaseScenario.execute: after a run that recorded new points the file lists the database (exported view, records) and "
+                  "nothing is pending, whatever the size of the database before the run (the guard `0 < n_x < n_x_a` that skipped the final export for a run starting from an "
+                  "empty database is REPAIRED in /repo 6142829; the revert is a registered mutant). One clause FAILS on the pinned tree and is a known finding, "
                   "proved outside its region and replayed on real files (contracts/rt_c12.py): set_optimization_history_backup@file 'the first export starts from an "
-                  "empty file or one listing the database' (region existing-file-neither-erased-nor-loaded) and BaseScenario.execute 'after a run that recorded "
-                  "new points the file lists the database, nothing pending' (region database-empty-before-the-run: guard `0 < n_x < n_x_a`).",
+                  "empty file or one listing the database' (region existing-file-neither-erased-nor-loaded).",
     "level_note": "Trusted: pyvc, z3, the abstract h5py model pyvc/plug_hdf.py (assumed contracts A1-A15, each validated against the real h5py by "
                   "tools/validate_h5py_model.py), sorted() as a deterministic duplicate-free listing, float64 = reals, ASCII output names. "
                   "The property is claimed at the level of the writer primitives only; DesignSpace / OptimizationProblem / HDF5Cache files are not under contract.",
@@ -919,11 +930,28 @@ PROPS["C17"] = {
                   "_remove_unused_variables keeps a design variable iff it is an input of a top-level discipline (definitions kept, design space well-formed); "
                   "MDF._update_design_space: afterwards no coupling of the MDA is a design variable and a variable is kept iff it was one, is no coupling "
                   "and is an input of the MDA; MDF.__init__: the user's design space is the problem's and, after construction, holds no coupling of the MDA "
-                  "created by the factory and exactly its entry variables that are inputs of this MDA and no couplings.",
+                  "created by the factory and exactly its entry variables that are inputs of this MDA and no couplings. "
+                  "Consistency constraint as an object (c17_consistency): ConsistencyConstraint.__init__ (the real MDOFunction.__init__ is executed) builds its "
+                  "coupling function from exactly (the given output couplings, the given formulation), takes the factor from _get_normalization_factor "
+                  "(finite, non-zero; 1.0 when not normalising), wraps its own _func_to_wrap / _jac_to_wrap, has type EQ and the names of its coupling "
+                  "function; its precondition 'the output couplings are design variables' is checked where IDF._build_constraints constructs it "
+                  "(output couplings among all_couplings, all_couplings required as design variables) and discharges the precondition of "
+                  "_get_normalization_factor; _jac_to_wrap: entry (i, p) = (dy_i/dx_p - [p is the column of the coupling target of component i]) / norm_i "
+                  "(identity blocks through 2-D slice stores of eye, row-wise division through newaxis; matrix Jacobian, and gradient of a scalar "
+                  "coupling through unmask_x_swap_order(ones)); lemmas: this Jacobian clause is the first-order change of the value clause of "
+                  "_func_to_wrap; two layouts selecting the same physical variables give the same adapter input vector, hence the same objective / "
+                  "constraint value for MDF at x and IDF at (x, y*(x)); all consistency constraints vanish iff y = Y(x, y). "
+                  "Disciplinary formulation: DisciplinaryOpt.__init__ / _filter_design_space / get_top_level_disciplines (the top-level discipline is the "
+                  "discipline or the chain of the disciplines; the user's design space is kept and restricted to exactly its variables that are inputs of "
+                  "it, definitions kept; IndexError for no discipline), DesignSpace.filter in place (exactly the asked variables are kept; ValueError iff "
+                  "an asked name is unknown), BaseFormulation._remove_sub_scenario_dv_from_ds (no variable of a sub-scenario remains, the others are kept).",
     "level_note": "Trusted: pyvc, numpy model (npmodel.py + plug_np_c17.py: builtin sum as a prefix-sum ghost function, empty/arange/copy), z3, reals for floats. "
                   "Known finding (reported, to be triaged): with normalize_constraints and a zero or infinite normalisation factor (coupling variable with equal "
                   "or infinite bounds - the default bounds) the consistency constraint is nan/inf or identically 0 although y_copy != y(x); region "
                   "`degenerate-normalization-factor` of ConsistencyConstraint._func_to_wrap (replayed natively by contracts/rt_c17.py). "
+                  "Known finding (second one): DisciplinaryOpt with a discipline declared linear and a design variable that is no input of it raises "
+                  "ValueError (objective linearised at zeros(sum of the UNFILTERED variable sizes)); region `linear-objective-and-unused-design-variable` "
+                  "of DisciplinaryOpt.__init__, replayed natively by contracts/rt_c17.py (kind dopt). "
                   "Not covered: 'optimising any of them reaches the same optimum' (optimiser behaviour), total derivatives through the MDA (C07/C09), BiLevel.",
     "design_ref": "DESIGN.md §4 C17",
     "runtime": "contracts.rt_c17",
@@ -948,14 +976,26 @@ PROPS["C17"] = {
         "opaque new object, MDAFactory.create(...) a new MDA with arbitrary couplings / input names; _build_objective_from_disc, _compute_equilibrium and _set_default_input_values_from_design_space are assumed not to touch the "
         "variables of the design space, the constraints or the formulation's attributes; BaseFormulation.get_top_level_disciplines (abstract) returns "
         "opaque disciplines whose input names are uninterpreted sets; a grammar is seen through its set of names; DesignSpace contracts of C02",
+        "c17_consistency: FunctionFromDiscipline(...) inside ConsistencyConstraint.__init__ is a captured construction (a new object with arbitrary name / "
+        "input names / output names that remembers its constructor arguments); DesignSpace.variable_sizes returns a new dictionary; the bounds of a "
+        "variable have the same size (DesignSpace invariant); _jac_to_wrap: the coupling Jacobian is an uninterpreted function of the design vector "
+        "with one row per coupling component and one column per design component, __dv_len agrees with formulation.variable_sizes on the design "
+        "variables (both are copies of the design space's sizes, IDF never changes its design space); numpy model of a[r0:r1, c0:c1] = M "
+        "(pyvc/plug_c17b.py, compared with numpy on 4000 random cases) and of v[:, newaxis]; gradient variant: one output coupling of size 1",
+        "c17_build (DisciplinaryOpt): MDOChain(disciplines) is an opaque discipline (uninterpreted function of the disciplines), get_all_inputs returns "
+        "exactly the input names of the given disciplines, get_sub_scenarios the sub-scenarios (seen through the variable names of their design "
+        "spaces); _build_objective_from_disc is abstract but carries the precondition of its linearisation (adapter.input_dimension = sum of "
+        "formulation.variable_sizes, assumed from DisciplineAdapter.__compute_input_dimension; a new MDA declares no linear relationship)",
+        "formulation lemmas: physical values of the variables as an uninterpreted function (x for design variables, y*(x) = abstract mda_solution for "
+        "couplings); the adapter is a function of the content of its input vector; first-order (affine) change of the coupling function along a coordinate",
     ],
     "not_covered": ["same optimum across formulations (optimiser behaviour)", "BiLevel", "sparse Jacobians",
-                    "ConsistencyConstraint.__init__ (coupling function / normalisation factor / MDOFunction initialisation) and the precondition chain "
-                    "'output couplings are design variables' from IDF._build_constraints down to _get_normalization_factor",
-                    "the MDA factory (MDF.__init__ sees a new MDA with an arbitrary coupling structure / input grammar), DisciplinaryOpt.__init__ / _filter_design_space (DesignSpace.filter, get_all_inputs), "
-                    "BaseFormulation._remove_sub_scenario_dv_from_ds (sub-scenarios), a None adapter input_dimension",
+                    "the MDA factory (MDF.__init__ sees a new MDA with an arbitrary coupling structure / input grammar), MDOChain / get_all_inputs / "
+                    "get_sub_scenarios (abstract), a None adapter input_dimension, FunctionFromDiscipline.__init__ and BaseFormulation._build_objective_from_disc "
+                    "(abstract; only the dimension precondition of the linearisation is modelled), DesignSpace.filter with copy=True",
+                    "that the MDA's outputs are the disciplines' outputs at the fixed point (abstract mda_solution in the lemmas; MDA convergence: C09)",
                     "DisciplineAdapter (__create_discipline_input_data, _convert_jacobian_to_array: data converters / slices of the grammar)",
-                    "ConsistencyConstraint._jac_to_wrap (identity blocks; newaxis broadcasting)", "matrix-valued FunctionFromDiscipline Jacobians (unmask itself is proved for matrices)"],
+                    "matrix-valued FunctionFromDiscipline Jacobians (unmask itself is proved for matrices)"],
 }
 
 PROPS["C14"] = {
@@ -1125,8 +1165,8 @@ NOT_APPLICABLE = {
            "(contracts/c12_backup_clauses.py): C11 - every export (HDFDatabase.to_file@c12 <- Database.to_hdf <- OptimizationProblem.to_hdf <- "
            "BaseScenario._execute_backup_callback, APPEND mode) leaves the file listing exactly the points recorded so far, in order, with the file handle CLOSED, and the "
            "callback's precondition is an invariant of store + notification (BackupInvariantLemmas), i.e. the file a crash BETWEEN two notifications finds is the closed "
-           "prefix written at the last notification; known findings: existing file neither erased nor loaded, final export skipped when the database was empty before the "
-           "run; C03 - listeners are notified after recording + registration for export, the backup listener is registered as store / new-iteration listener as selected, "
+           "prefix written at the last notification, and BaseScenario.execute completes the file after the last iteration; known finding: existing file neither erased nor "
+           "loaded (repaired, 6142829: final export skipped when the database was empty before the run); C03 - listeners are notified after recording + registration for export, the backup listener is registered as store / new-iteration listener as selected, "
            "erase / load branches, restored counter; C01 - after load the database holds the file's points (served from the database without re-evaluation by C01's "
            "memoisation clauses). Not proved anywhere: the VALUE-level content of the reloaded entries (C11 reader content clauses), 'optimum at least as good as the best "
            "loaded one' (C04 on the restarted database) and 'same history as the uninterrupted run' (needs determinism of the algorithm) (DESIGN.md §6)",
